@@ -383,6 +383,12 @@ class Position(object):
         if int(floor(transaction.quantity)) == 0:
             return
 
+        # Update the current trade information. This validates the
+        # transaction price and time, so it must happen before any of
+        # the quantities are modified
+        self.update_current_price(transaction.price, transaction.dt)
+        self.current_dt = transaction.dt
+
         # Depending upon the direction of the transaction
         # ensure the correct calculation is called
         if transaction.quantity > 0:
@@ -397,7 +403,3 @@ class Position(object):
                 transaction.price,
                 transaction.commission
             )
-
-        # Update the current trade information
-        self.update_current_price(transaction.price, transaction.dt)
-        self.current_dt = transaction.dt
